@@ -94,6 +94,16 @@ def cases(tier, seed):
         for m in sp.structures(n):
             for t in ksets:
                 yield ('M', cm.with_ctc(m, t))
+    # feature names of every class, in the tree and as operands of constraints
+    from . import rt
+    for _cls, members in rt.NAME_CLASSES.items():
+        for nm in members:
+            if nm.startswith("'"):
+                continue
+            car = rt.rename(cm.CARRIER4, 1, nm)
+            yield ('M', car)
+            for t in (('REQUIRES', nm, 'Dc'), ('OR', ('NOT', 'Dc', None), nm), ('AND', nm, ('OR', 'Dc', 'Ad')), ('EXCLUDES', 'Ad', nm)):
+                yield ('M', (car[0], (('c1', t),)))
     reps = [('REQUIRES', 'x', 'y'), ('EXCLUDES', 'x', 'y'), ('AND', ('IMPLIES', 'x', 'y'), ('IMPLIES', 'y', 'z')),
             ('OR', 'x', ('AND', 'y', 'z')), 'x', ('NOT', 'x', None), ('XOR', 'x', 'z'),
             ('EQUIVALENCE', 'y', ('NOT', 'z', None))]
@@ -459,19 +469,46 @@ def check(case):
         return []
     if kind == 'MH':
         op = FMMetrics()
+        kept = []
         for i, model in enumerate(case[1]):
             fm, fails = cm.built(model)
             if fails:
                 return fails
             try:
                 fresh = _plain(FMMetrics().execute(fm).get_result())
-                got = _plain(op.execute(fm).get_result())
+                raw = op.execute(fm).get_result()
+                got = _plain(raw)
+                kept.append((i, raw, got, model, fm))
                 engine.tick(2)
             except Exception as exc:  # noqa: BLE001
                 return [Fail('history-raises:%s' % type(exc).__name__, str(exc)[:200])]
             if got != fresh:
                 out.append(Fail('history-result-differs-from-fresh', {'step': i, 'len_got': len(got), 'len_fresh': len(fresh)}))
                 break
+            # the reports handed out so far still describe their own models
+            for (j, raw_j, plain_j, model_j, fm_j) in kept:
+                if _plain(raw_j) != plain_j:
+                    out.append(Fail('earlier-report-changed-by-later-execution', {'report of step': j, 'after step': i,
+                                                                                  'len_was': len(plain_j), 'len_now': len(raw_j)}))
+                    return out
+        if not out and kept:
+            # the caller empties the last report: the next reports (same object, fresh object) are complete
+            j, raw_j, plain_j, model_j, fm_j = kept[-1]
+            for rec in list(raw_j):
+                if isinstance(rec, dict) and isinstance(rec.get('result'), list):
+                    rec['result'].clear()
+            raw_j.clear()
+            for who, obj in (('same-object', op), ('fresh-object', FMMetrics())):
+                try:
+                    res = obj.execute(fm_j).get_result()
+                except Exception as exc:  # noqa: BLE001
+                    return [Fail('history-raises:%s' % type(exc).__name__, str(exc)[:200])]
+                sub = []
+                check_report(res, model_j, fm_j, sub, list(METRICS.values()))
+                for f in sub:
+                    f.clause = 'after-the-caller-emptied-a-report:%s:%s' % (who, f.clause)
+                if sub:
+                    return sub
         return out
     raise ValueError(kind)
 
